@@ -35,6 +35,10 @@ pub enum FaultKind {
     /// h-1 - and the prev field of the stored block h is pointed at that new header hash: the two stored blocks link
     /// to each other, but block h's prev-hash is not the INDEXED hash of the preceding height
     Relinked,
+    /// the index holds, besides the active record of height h-1, a stale sibling with data (its hash sorts before the
+    /// active one's, so it never becomes the record of its height), and the prev field of the stored block h names that
+    /// sibling: a hash the index knows, at the right height - but not THE indexed hash of the preceding height
+    PrevToSibling,
 }
 
 #[derive(Clone, Debug, Serialize, Deserialize)]
@@ -91,7 +95,7 @@ fn chain_cfg(tier: Tier, faults: bool) -> gen::ChainCfg {
 
 pub fn strategy(tier: Tier, faults: bool) -> BS<Case> {
     let fault = if faults {
-        (prop_oneof![4 => Just(FaultKind::TxBit), 3 => Just(FaultKind::MerkleBit), 3 => Just(FaultKind::PrevBit), 2 => Just(FaultKind::ForeignBlock), 2 => Just(FaultKind::Relinked), 1 => Just(FaultKind::WrongGenesis), 1 => Just(FaultKind::SyntheticGenesis), 1 => Just(FaultKind::GenesisCopy)], any::<u16>(), any::<u32>()).prop_map(|(kind, h, bit)| Some(Fault { kind, h, bit, more: 0 })).boxed()
+        (prop_oneof![4 => Just(FaultKind::TxBit), 3 => Just(FaultKind::MerkleBit), 3 => Just(FaultKind::PrevBit), 2 => Just(FaultKind::ForeignBlock), 2 => Just(FaultKind::Relinked), 2 => Just(FaultKind::PrevToSibling), 1 => Just(FaultKind::WrongGenesis), 1 => Just(FaultKind::SyntheticGenesis), 1 => Just(FaultKind::GenesisCopy)], any::<u16>(), any::<u32>()).prop_map(|(kind, h, bit)| Some(Fault { kind, h, bit, more: 0 })).boxed()
     } else {
         Just(None).boxed()
     };
@@ -173,7 +177,7 @@ pub fn check(c: &Case) -> Verdict {
                 }
                 1 + mono(f.h, n - 1)
             }
-            FaultKind::Relinked => {
+            FaultKind::Relinked | FaultKind::PrevToSibling => {
                 if n < 3 {
                     return Verdict::Pass(Pass::default());
                 }
@@ -188,6 +192,16 @@ pub fn check(c: &Case) -> Verdict {
                 bytes[76] ^= 0x01 | (f.bit as u8 & 0xfe);
                 relinked_prev = Some(vpmodel::hashes::sha256d(&bytes[..80]));
             }
+        }
+        if f.kind == FaultKind::PrevToSibling {
+            let sib = crate::c04::competitor(&built.blocks[hi - 1].1, built.blocks[hi - 1].1.prev, false, f.bit);
+            if sib.hash() >= built.blocks[hi - 1].1.hash() {
+                return Verdict::Pass(Pass::default()); // no earlier-sorting hash found: the open finding D7 would interfere
+            }
+            plan.recs.push(vpmodel::datadir::rec_for(&sib, built.blocks[hi - 1].0, vpmodel::datadir::VALID_TRANSACTIONS | vpmodel::datadir::HAVE_DATA));
+            let rec = Some(plan.recs.len() - 1);
+            plan.files[0].segs.push(Seg::Blk { bytes: sib.ser(), rec, magic: coin.magic() });
+            relinked_prev = Some(sib.hash());
         }
         if let Seg::Blk { bytes, .. } = &mut plan.files[0].segs[hi] {
             match f.kind {
@@ -224,6 +238,12 @@ pub fn check(c: &Case) -> Verdict {
                         bytes[4..36].copy_from_slice(&p);
                     }
                     desc = "stored predecessor re-mined (other nonce) and this block's prev field pointed at it".into();
+                }
+                FaultKind::PrevToSibling => {
+                    if let Some(p) = relinked_prev {
+                        bytes[4..36].copy_from_slice(&p);
+                    }
+                    desc = "prev field names a stale sibling (with data, in the index) of the preceding block".into();
                 }
                 FaultKind::WrongGenesis => desc = "another coin's genesis block at height 0".into(),
                 FaultKind::SyntheticGenesis => desc = "synthetic block at height 0".into(),
